@@ -95,7 +95,7 @@ FAMILIES = {
              'non-trivial: a dispatch is rejected'),
     'C15': dict(
         gens=[('core', dict(p_waitidle=0.35, tasklen=(2, 8), ntasks=(1, 3)), 0.35), ('core', dict(p_waitidle=0.3, p_timeout=0.4), 0.15),
-              ('chain', dict(p_timeout=0.3), 0.15), ('idle', dict(), 0.2), ('backlog', dict(p_waitidle=1.0), 0.1), ('parraise', dict(idle=True), 0.05)],
+              ('chain', dict(p_timeout=0.3), 0.15), ('idle', dict(), 0.2), ('backlog', dict(p_waitidle=1.0), 0.1), ('parraise', dict(idle=True), 0.05), ('cycle', dict(), 0.04)],
         facets=['idle', 'unfinished', 'queue', 'rest', 'history', 'results', 'activation', 'harness', 'other', 'runloop', 'recursion', 'timeout'],
         rule='wait_until_idle racing external and nested dispatches at offsets around the 0.1 s poll, after errors, timeouts, rejections, evictions; '
              'non-trivial: a wait_until_idle call overlaps at least one activation'),
@@ -155,7 +155,7 @@ def gen_backlog(rng, p_waitidle=0.0, **_):
     return sc
 
 
-GENS = {'core': gen.gen_core, 'backlog': gen_backlog, 'chain': gen.gen_chain, 'stop': gen.gen_stop, 'idle': gen.gen_idle, 'deep': gen.gen_deep, 'sibling': gen.gen_sibling, 'parraise': gen.gen_parraise, 'deepfwd': gen.gen_deepfwd, 'parshare': gen.gen_parshare, 'partimeout': gen.gen_partimeout}
+GENS = {'core': gen.gen_core, 'backlog': gen_backlog, 'chain': gen.gen_chain, 'stop': gen.gen_stop, 'idle': gen.gen_idle, 'deep': gen.gen_deep, 'sibling': gen.gen_sibling, 'parraise': gen.gen_parraise, 'deepfwd': gen.gen_deepfwd, 'parshare': gen.gen_parshare, 'partimeout': gen.gen_partimeout, 'cycle': gen.gen_cycle}
 
 
 def corpus(prop):
